@@ -34,7 +34,7 @@ Proof.
     destruct ((top p >? bottom x) || (left p >? right x) || (right p <? left x)) eqn:Eap.
     + apply IH; [assumption|lia].
     + destruct Hx as [Hx|[Hx|(H1 & H2 & H3)]]; [lia|lia|].
-      rewrite H1, H2.
+      rewrite init_bounded_id, H1, H2.
       assert (Et : (top p =? bottom x) || (bottom p =? top x) = true) by lia.
       rewrite Et. apply IH; [assumption|lia].
   - now rewrite init_bounded_id.
